@@ -33,6 +33,11 @@ def templates():
         out.append(("helper local x%d" % j,
                     "function probe(int f) -> void {\n  @tracked qubit h0;\n  if (f == 1) { x(h0); }\n  measure h0;\n}\nfunction main() -> void {\n%s}\n" % calls,
                     [("qubit h0", str(i % 2)) for i in range(j)], 0))
+    # helpers written below main (forward calls are legal): the annotation on main still counts
+    out.append(("helper below main", "function main() -> void {\n  probe(1);\n  probe(0);\n  echo(\"m\");\n}\nfunction probe(int f) -> void {\n  @tracked qubit h0;\n  if (f == 1) { x(h0); }\n  measure h0;\n}\n"
+                "function unused(int z) -> int {\n  return z;\n}\n", [("qubit h0", "1"), ("qubit h0", "0")], 1))
+    out.append(("class and helper below main", "function main() -> void {\n  @tracked qubit q;\n  x(q);\n  measure q;\n  echo(twice(2));\n}\nfunction twice(int z) -> int {\n  return z * 2;\n}\n"
+                "class After { public constructor() -> After = default; }\n", [("qubit q", "1")], 1))
     out.append(("array both", "function main() -> void {\n  @tracked qubit[2] r;\n  x(r[1]);\n  measure r[0];\n  measure r[1];\n}\n", [("qubit[] r", "01")], 0))
     out.append(("array whole", "function main() -> void {\n  @tracked qubit[2] r;\n  x(r[0]);\n  measure r;\n}\n", [("qubit[] r", "10")], 0))
     out.append(("array one", "function main() -> void {\n  @tracked qubit[2] r;\n  x(r[1]);\n  measure r[1];\n}\n", [("qubit[] r", "?")], 0))
